@@ -8,12 +8,15 @@ import (
 	"sort"
 	"strings"
 
+	"k8s.io/apimachinery/pkg/runtime"
 	"k8s.io/apimachinery/pkg/types"
 	"k8s.io/cli-runtime/pkg/resource"
 
 	"github.com/np-guard/netpol-analyzer/pkg/cli"
+	"github.com/np-guard/netpol-analyzer/pkg/manifests/parser"
 	"github.com/np-guard/netpol-analyzer/pkg/netpol/connlist"
 	"github.com/np-guard/netpol-analyzer/pkg/netpol/diff"
+	"github.com/np-guard/netpol-analyzer/pkg/netpol/eval"
 
 	"verif/parse"
 	"verif/wm"
@@ -55,6 +58,48 @@ func AllOutputs(infos, other []*resource.Info, admin bool, evalPairs [][2]string
 			}
 			res = append(res, Output{name, out})
 		}
+	}
+	if len(evalPairs) > 0 {
+		// eval: an engine filled object by object (as the CLI does), every pair on numbered and named ports
+		pe := eval.NewPolicyEngine()
+		pe.VerifCacheDebug(false)
+		objs, _ := parser.ResourceInfoListToK8sObjectsList(infos, wm.Quiet(), true)
+		loadErr := ""
+		for i := range objs {
+			var o runtime.Object
+			switch objs[i].Kind {
+			case parser.Namespace:
+				o = objs[i].Namespace
+			case parser.Pod:
+				o = objs[i].Pod
+			case parser.NetworkPolicy:
+				o = objs[i].NetworkPolicy
+			case parser.Deployment:
+				o = objs[i].Deployment
+			case parser.AdminNetworkPolicy:
+				o = objs[i].AdminNetworkPolicy
+			case parser.BaselineAdminNetworkPolicy:
+				o = objs[i].BaselineAdminNetworkPolicy
+			default:
+				continue
+			}
+			if err := pe.InsertObject(o); err != nil {
+				loadErr = err.Error()
+			}
+		}
+		var sb strings.Builder
+		sb.WriteString("load: " + loadErr + "\n")
+		for _, pr := range evalPairs {
+			for _, q := range [][2]string{{"tcp", "80"}, {"tcp", "8080"}, {"udp", "53"}, {"tcp", "http"}} {
+				v, err := pe.CheckIfAllowed(pr[0], pr[1], q[0], q[1])
+				es := ""
+				if err != nil {
+					es = " error: " + err.Error()
+				}
+				fmt.Fprintf(&sb, "%s => %s over %s/%s: %v%s\n", pr[0], pr[1], q[0], q[1], v, es)
+			}
+		}
+		res = append(res, Output{"eval", sb.String()})
 	}
 	if other != nil {
 		for _, f := range diffFormats {
